@@ -11,6 +11,15 @@ NUDGE_DISTS = ['4', '2', '1', '8', '3', '6', '0.5', '10', '2.5', '5']
 CONN_DIR_ALL = 15
 
 
+def hook_b_present(repo=None):
+    """hook H1b (ALLSEG / AROUTE / ASEG / SEGX records) is in the tree"""
+    p = os.path.join(repo or C.REPO, 'cola', 'libavoid', 'orthogonal.cpp')
+    try:
+        return 'verifDumpSegmentExtra' in open(p).read()
+    except OSError:
+        return False
+
+
 def hook_present(repo=None):
     p = os.path.join(repo or C.REPO, 'cola', 'libavoid', 'orthogonal.cpp')
     try:
@@ -31,9 +40,13 @@ def near_box(b, p, m):
 def gen_scene(rng, sid, family=None):
     """a scene dict: opts (5 bools), nudge (string), pen, buf, fspp, boxes [(id,x0,y0,x1,y1)], pins [(sid,cls,xo,yo,ins,dirs)],
     conns [(id, end, end)] with end = ('P',x,y) | ('S',sid,cls); cps {id: [(x,y)..]}.  All coordinates multiples of 4."""
-    fam = family if family is not None else rng.below(13)
+    fam = family if family is not None else rng.below(16)
     R = 24
     sc = {'id': sid, 'family': fam}
+    if fam in (13, 15):
+        return gen_cpline(rng, sc)
+    if fam == 14:
+        return gen_edge(rng, sc)
     if fam >= 10:
         return gen_corridor(rng, sc)
     sc['opts'] = [int(rng.chance(1, 2)) for _ in range(5)]
@@ -164,6 +177,139 @@ def gen_corridor(rng, sc):
     return sc
 
 
+def _transform(sc, mirror, swap):
+    """mirror x -> 400 - x and / or swap the axes of a whole scene (boxes, connector ends, checkpoints)"""
+    def tp(p):
+        x, y = p
+        if mirror:
+            x = 400 - x
+        return (y, x) if swap else (x, y)
+
+    def tb(b):
+        (x0, y0), (x1, y1) = tp((b[1], b[2])), tp((b[3], b[4]))
+        return (b[0], min(x0, x1), min(y0, y1), max(x0, x1), max(y0, y1))
+    sc['boxes'] = [tb(b) for b in sc['boxes']]
+    sc['conns'] = [(c, ('P',) + tp(a[1:3]), ('P',) + tp(b[1:3])) for (c, a, b) in sc['conns']]
+    sc['cps'] = {c: [tp(p) for p in ps] for c, ps in sc['cps'].items()}
+    return sc
+
+
+def gen_cpline(rng, sc):
+    """families 13 / 15: a connector with 2-3 COLLINEAR checkpoints inside one straight segment of its route; the segment
+    ends in a bend into a channel between two rectangles, so the adjoining (shiftable) segment is centred / nudged and
+    must be limited by the checkpoint nearest to the bend (buildConnectorRouteCheckpointCache ->
+    buildOrthogonalNudgingSegments prevCheckpoints / nextCheckpoints).  With and without the unifying step, with a second
+    connector sharing the channel or elsewhere.  Family 15 puts the last checkpoint exactly on a channel wall."""
+    fam = sc['family']
+    sc['opts'] = [int(rng.chance(1, 2)) for _ in range(5)]
+    sc['opts'][0] = int(rng.chance(1, 8))
+    sc['nudge'] = rng.choice(['10', '4', '8', '6', '2', '5'])
+    sc['pen'] = rng.choice(['50', '20', '100'])
+    sc['buf'] = '0'
+    sc['fspp'] = '0'
+    w = rng.choice([16, 24, 32, 40, 48])
+    c0 = 200
+    a0, a1 = rng.range(10, 30) * 4, rng.range(10, 40) * 4
+    y0 = 152
+    h = rng.range(10, 30) * 4
+    sc['boxes'] = [(1, c0 - a0, y0, c0, y0 + h), (2, c0 + w, y0, c0 + w + a1, y0 + h)]
+    sc['pins'] = []
+    Y = y0 - rng.range(3, 14) * 4                       # the line of the checkpoints, above the rectangles
+    src = (c0 - a0 - rng.range(4, 20) * 4, Y)
+    dst = (c0 + w + rng.range(4, 20) * 4, y0 + h + rng.range(4, 14) * 4)
+    k = rng.range(2, 3)
+    if fam == 15:
+        last = c0 + w if rng.chance(1, 2) else c0
+    elif rng.chance(3, 4):
+        last = c0 + rng.range(1, w // 4 - 1) * 4        # strictly inside the channel
+    else:
+        last = c0 - rng.range(1, 8) * 4                 # before the channel
+    xs = set([last])
+    t = 0
+    while len(xs) < k and t < 50:
+        t += 1
+        xs.add(src[0] + rng.range(2, max(3, (last - src[0]) // 4 - 1)) * 4)
+    xs = sorted(x for x in xs if src[0] < x <= last)
+    A = 10 + rng.below(3) * 10
+    conns = [(A, ('P',) + src, ('P',) + dst)]
+    cps = {A: [(x, Y) for x in xs]}
+    used = set([src, dst])
+    nb = rng.range(0, 2)
+    for i in range(nb):
+        for _ in range(50):
+            if rng.chance(1, 2):                        # shares the channel
+                s = (c0 - a0 + rng.range(2, 16) * 4, Y - rng.range(2, 12) * 4)
+                d = (c0 + w + rng.range(4, 20) * 4, y0 + h + rng.range(4, 20) * 4)
+            else:                                       # elsewhere
+                s = (src[0] - rng.range(0, 10) * 4, Y - rng.range(2, 12) * 4)
+                d = (dst[0] + rng.range(-4, 10) * 4, dst[1] + rng.range(2, 12) * 4)
+            if s not in used and d not in used and not any(near_box(b[1:], s, 4) or near_box(b[1:], d, 4) for b in sc['boxes']):
+                break
+        used.add(s); used.add(d)
+        if rng.chance(1, 3):
+            s, d = d, s
+        cid = rng.choice([5, 15, 25, 35]) + i
+        conns.append((cid, ('P',) + s, ('P',) + d))
+    if rng.chance(1, 2):                                # route A in the other direction (checkpoints in route order)
+        conns[0] = (A, conns[0][2], conns[0][1])
+        cps[A] = cps[A][::-1]
+    if rng.chance(1, 2):
+        conns = conns[::-1]
+    sc['conns'] = conns
+    sc['cps'] = cps
+    return _transform(sc, rng.chance(1, 2), rng.chance(1, 2))
+
+
+def gen_edge(rng, sc):
+    """family 14: an END segment of one connector (a straight connector, or the first leg of an L / Z route) lies exactly
+    on a rectangle edge along which another connector's MIDDLE segment runs (a C-bend round that side of the rectangle):
+    the fixed segment's shift range [p, p] and the middle segment's range [p, +inf) touch in one point.  All orders of
+    connector ids and of creation, all four sides."""
+    sc['opts'] = [int(rng.chance(1, 2)) for _ in range(5)]
+    sc['opts'][0] = int(rng.chance(1, 8))
+    sc['nudge'] = rng.choice(['10', '4', '8', '6', '2', '5', '3'])
+    sc['pen'] = rng.choice(['50', '20', '100'])
+    sc['buf'] = '0'
+    sc['fspp'] = '0'
+    x0, y0 = 40 + rng.range(0, 5) * 4, 100
+    x1, y1 = x0 + rng.range(20, 60) * 4, y0 + rng.range(20, 50) * 4
+    sc['boxes'] = [(1, x0, y0, x1, y1)]
+    sc['pins'] = []
+    ids = [10, 20, 30]
+    ia = rng.below(3)
+    A = ids[ia]
+    others = [i for i in ids if i != A]
+    F = others[rng.below(2)]
+    G = [i for i in others if i != F][0]
+    ax = x1 - rng.range(2, 10) * 4                      # A starts and ends left of the edge, above / below the box
+    a_s = (ax, y0 - rng.range(3, 18) * 4)
+    a_d = (ax + rng.range(-2, 2) * 4, y1 + rng.range(3, 30) * 4)
+    f_s = (x1, a_s[1] - rng.range(1, 6) * 4)           # F runs along x = x1, longer than A's stretch
+    kind = rng.below(3)
+    if kind == 0:
+        f_d = (x1, a_d[1] + rng.range(1, 20) * 4)       # straight connector
+    elif kind == 1:
+        f_d = (x1 + rng.range(10, 30) * 4, a_d[1] + rng.range(1, 20) * 4)   # L: first leg on the edge line
+    else:
+        f_s = (x1, y0 + rng.range(2, 10) * 4 - 60)
+        f_d = (x1, a_d[1] - rng.range(1, 2) * 4)        # straight, ends inside A's stretch
+    conns = [(A, ('P',) + a_s, ('P',) + a_d), (F, ('P',) + f_s, ('P',) + f_d)]
+    if rng.chance(1, 2):
+        conns[0] = (A, conns[0][2], conns[0][1])
+    if rng.chance(1, 2):
+        conns[1] = (F, conns[1][2], conns[1][1])
+    if rng.chance(1, 3):
+        g_s = (x1 + rng.range(2, 20) * 4, a_s[1] + rng.range(-6, 6) * 4)
+        g_d = (x1 + rng.range(2, 20) * 4, a_d[1] + rng.range(-6, 6) * 4)
+        if g_s != g_d and g_s[0] != x1 and g_d[0] != x1:
+            conns.append((G, ('P',) + g_s, ('P',) + g_d))
+    order = rng.below(6)
+    perm = [[0, 1, 2], [0, 2, 1], [1, 0, 2], [1, 2, 0], [2, 0, 1], [2, 1, 0]][order]
+    sc['conns'] = [conns[i] for i in perm if i < len(conns)]
+    sc['cps'] = {}
+    return _transform(sc, rng.chance(1, 2), rng.chance(1, 2))
+
+
 def scene_text(sc):
     L = ['R %s %s %s %s %s' % (sc['pen'], sc['nudge'], sc['buf'], sc['fspp'], ' '.join(str(o) for o in sc['opts']))]
     for (bid, x0, y0, x1, y1) in sc['boxes']:
@@ -172,6 +318,8 @@ def scene_text(sc):
         L.append('N %d %d %s %s %s %d' % p)
 
     def end(e):
+        if e[0] == 'D':
+            return 'D %d %d %d' % (e[1], e[2], e[3])    # free end with ConnDirFlags
         return 'P %d %d' % (e[1], e[2]) if e[0] == 'P' else 'S %d %d' % (e[1], e[2])
     for (cid, a, b) in sc['conns']:
         L.append('C %d %s %s' % (cid, end(a), end(b)))
@@ -199,7 +347,7 @@ def parse_output(txt):
             continue
         k = t[0]
         if k == 'NUDGE-BEGIN':
-            cur = {'regions': [], 'routes': {}, 'flags': None, 'exc': None, 'done': False}
+            cur = {'regions': [], 'routes': {}, 'flags': None, 'exc': None, 'done': False, 'passes': []}
             res.append(cur)
             reg = None
         elif cur is None:
@@ -214,6 +362,18 @@ def parse_output(txt):
                                 'ends_in_shape': int(t[6]), 'cp': int(t[7]), 'single': int(t[8]), 'zigzag': int(t[9]),
                                 'min': fx(t[10]), 'max': fx(t[11]), 'var': int(t[12]), 'des': fx(t[13]), 'wt': fx(t[14]),
                                 'id': int(t[15]), 'lo': fx(t[16]), 'hi': fx(t[17]), 'nidx': int(t[18])})
+        elif k == 'ALLSEG':
+            cur['passes'].append({'dim': int(t[1]), 'unify': int(t[2]), 'n': int(t[3]), 'segs': [], 'routes': {}})
+        elif k == 'AROUTE':
+            n = int(t[2])
+            cur['passes'][-1]['routes'][int(t[1])] = [(fx(t[3 + 2 * i]), fx(t[4 + 2 * i])) for i in range(n)]
+        elif k == 'ASEG':
+            nidx = int(t[16])
+            cur['passes'][-1]['segs'].append({'conn': int(t[2]), 'pos': fx(t[3]), 'fixed': int(t[4]), 'final': int(t[5]),
+                                              'cp': int(t[7]), 'zigzag': int(t[9]), 'min': fx(t[10]), 'max': fx(t[11]),
+                                              'lo': fx(t[12]), 'hi': fx(t[13]), 'idx': [int(x) for x in t[17:17 + nidx]]})
+        elif k == 'SEGX':
+            pass
         elif k == 'REL':
             reg['rel'][(int(t[1]), int(t[2]))] = tuple(int(x) for x in t[3:7])
         elif k == 'VARS':
@@ -299,8 +459,24 @@ def split_scenes(txt):
     return out
 
 
-def driver_regions(dump_lines):
-    return [' '.join(conv_tok(t) for t in l.split()) for l in dump_lines] + ['ENDREGIONS']
+def driver_regions(dump_lines, sc=None, complete=True):
+    """the dump of one scene in the driver's number format; REGION records get the scene's
+    nudgeOrthogonalTouchingColinearSegments option appended (hook H1 does not dump it), the scene's checkpoints go in
+    front as CPS records (for the checkpoint-limit oracle of the pass records of hook H1b)"""
+    out = []
+    if sc is not None:
+        for cid, ps in sorted(sc['cps'].items()):
+            out.append('CPS %d %d %s' % (cid, len(ps), ' '.join('%s %s' % (qstr(p[0]), qstr(p[1])) for p in ps)))
+    for l in dump_lines:
+        x = ' '.join(conv_tok(t) for t in l.split())
+        if sc is not None and l.startswith('REGION '):
+            x += ' %d' % sc['opts'][1]
+        out.append(x)
+    return out + ['ENDREGIONS %d' % (1 if complete else 0)]
+
+
+def count_passes(dump_lines):
+    return sum(1 for l in dump_lines if l.startswith('ALLSEG '))
 
 
 def attached(sc, cid):
@@ -328,18 +504,18 @@ def driver_scene(sc, res, tol='1/f4240'):
 
 
 def parse_driver(txt):
-    regs, scenes = [], []
+    """-> (region verdicts, scene verdicts, pass verdicts)"""
+    regs, scenes, passes = [], [], []
     for line in txt.split('\n'):
-        if line.startswith('R '):
-            t = line.split(' ', 9)
+        if line.startswith('R ') or line.startswith('G '):
             d = {'line': line}
-            for kv in t[2:9]:
+            for kv in line.split('notes=', 1)[0].split()[2:]:
                 if '=' in kv:
                     k, v = kv.split('=', 1)
-                    d[k] = v
+                    d[k] = v.strip('[]')
             d['notes'] = line.split('notes=', 1)[1] if 'notes=' in line else ''
             d['error'] = ' ERROR ' in line
-            regs.append(d)
+            (regs if line[0] == 'R' else passes).append(d)
         elif line.startswith('S '):
             d = {'line': line, 'error': ' ERROR ' in line}
             for kv in line.split()[2:]:
@@ -347,7 +523,7 @@ def parse_driver(txt):
                     k, v = kv.split('=', 1)
                     d[k] = v.strip('[]')
             scenes.append(d)
-    return regs, scenes
+    return regs, scenes, passes
 
 
 def region_json(g):
@@ -391,16 +567,63 @@ def spur_tip(ps, p):
 
 def cp_on_plain_fixed_segment(regions, cid, p):
     """some dumped nudging-stage region has a segment of connector cid that is fixed, has no checkpoints recorded, contains
-    the point p, and is related by canAlignWith to another segment of the same connector"""
+    the point p, and is related by canAlignWith to another segment of the same connector which that region moved ONTO the
+    fixed segment's position (it started elsewhere and ended there: the detour through the checkpoint became collinear)"""
     for g in regions:
-        if g['unify']:
+        if g['unify'] or not g['end'] or not g['end']['sat']:
             continue
         across, along = (p[0], p[1]) if g['dim'] == 0 else (p[1], p[0])
         for i, s in enumerate(g['segs']):
             if s['conn'] == cid and s['fixed'] and not s['cp'] and s['pos'] == across and s['lo'] <= along <= s['hi']:
                 for (a, b), rel in g['rel'].items():
                     if i in (a, b) and rel[2] and g['segs'][a]['conn'] == cid and g['segs'][b]['conn'] == cid:
-                        return True
+                        j = b if i == a else a
+                        if g['segs'][j]['pos'] != s['pos'] and abs(g['end']['pos'][j] - s['pos']) <= 1e-6:
+                            return True
+    return False
+
+
+def cp_at_moved_corner(sc, regions, cid, p):
+    """the unifying pass ran (option on, fixedSharedPathPenalty 0) and some dumped NUDGING-stage region has a non-fixed
+    segment of connector cid without checkpoints whose position is exactly the checkpoint's coordinate in the shift
+    dimension and one of whose ends is the checkpoint's other coordinate - the checkpoint sits exactly on the corner
+    between this segment and the adjoining one (the unifying pass clamped the segment onto its checkpoint limit) - and
+    whose limits leave room to move (buildOrthogonalNudgingSegments tests `< thisPos` / `> thisPos`, so a checkpoint AT
+    thisPos no longer limits the segment)"""
+    if not (sc['opts'][2] == 1 and float(sc['fspp']) == 0):
+        return False
+    for g in regions:
+        if g['unify']:
+            continue
+        d = g['dim']
+        for s in g['segs']:
+            if s['conn'] == cid and not s['fixed'] and not s['cp'] and s['pos'] == p[d] and p[1 - d] in (s['lo'], s['hi']) \
+                    and (s['min'] < s['pos'] or s['pos'] < s['max']):
+                return True
+    return False
+
+
+def pair_flagged_shared(regions, a, b):
+    """some dumped region ties a segment of connector a to a segment of connector b through overlapping segment pairs that
+    carry the shared-path flag (the connector pair is in m_shared_path_connectors_with_common_endpoints): each such pair
+    gets an EQUALITY constraint, so a chain a = c = b glues a and b together even when the pair (a, b) itself is not
+    flagged"""
+    for g in regions:
+        adj = {}
+        for (i, j), rel in g['rel'].items():
+            if rel[0] and rel[3]:
+                ci, cj = g['segs'][i]['conn'], g['segs'][j]['conn']
+                adj.setdefault(ci, set()).add(cj)
+                adj.setdefault(cj, set()).add(ci)
+        seen, todo = {a}, [a]
+        while todo:
+            c = todo.pop()
+            for d in adj.get(c, ()):
+                if d not in seen:
+                    seen.add(d)
+                    todo.append(d)
+        if b in seen and a in adj:
+            return True
     return False
 
 
@@ -408,17 +631,110 @@ def sandwiched(regions, a, b):
     """the failing pair (a, b) sits in a nudging-stage region that ended unsatisfied and whose generated constraints
     contain a chain  fixed -> movable -> fixed  of positive gaps with the first fixed variable not left of the second
     (infeasible for every positive separation: the processing order put a movable segment between two immovable
-    segments at the same position)"""
+    segments at the same position), the movable segment belonging to one connector of the pair and one of the two fixed
+    segments to the other"""
     for g in regions:
         if g['unify'] or not g['end'] or g['end']['sat']:
             continue
-        conns = set(s['conn'] for s in g['segs'])
-        if a not in conns or b not in conns:
+        owner = {s['var']: s['conn'] for s in g['segs']}
+        if a not in owner.values() or b not in owner.values():
             continue
         vs, cs = g['vars'], g['cons']
         for (l1, m, g1, e1) in cs:
             if g1 > 0 and vs[l1][0] == 1 and vs[m][0] == 0:
                 for (m2, r2, g2, e2) in cs:
                     if m2 == m and g2 > 0 and vs[r2][0] == 1 and vs[l1][1] >= vs[r2][1]:
-                        return True
+                        cm, cf = owner.get(m), (owner.get(l1), owner.get(r2))
+                        if (cm == a and b in cf) or (cm == b and a in cf):
+                            return True
     return False
+
+
+def _feasible(nv, cons, pinned):
+    """difference constraints  x[l] + g <= x[r]  (and x[r] <= x[l] + g for equalities) with the variables in `pinned`
+    held at the given values: Bellman-Ford from a virtual origin, True iff there is no negative cycle"""
+    E = []
+    for (l, r, g, eq) in cons:
+        E.append((r, l, -g))                # x[l] - x[r] <= -g
+        if eq:
+            E.append((l, r, g))             # x[r] - x[l] <= g
+    O = nv
+    for i, v in pinned.items():
+        E.append((O, i, v))                 # x[i] - x[O] <= v
+        E.append((i, O, -v))                # x[O] - x[i] <= -v
+    dist = [0.0] * (nv + 1)
+    for _ in range(nv + 2):
+        ch = False
+        for (u, w, c) in E:
+            if dist[u] + c < dist[w] - 1e-9:
+                dist[w] = dist[u] + c
+                ch = True
+        if not ch:
+            return True
+    return False
+
+
+def blocked_by_shared_equality(regions, a, b):
+    """the failing pair (a, b) sits in a nudging-stage region that ended unsatisfied, whose last solved constraint system (gaps at
+    the last positive separation tried, fixed / channel variables pinned at their positions) is infeasible, and becomes feasible
+    when the EQUALITY constraints between segments of different connectors (the shared-path exemption; shouldAlignWith
+    equalities are between segments of one connector) are dropped: nothing of the region is written back because of
+    the exemption"""
+    for g in regions:
+        if g['unify'] or not g['end'] or g['end']['sat'] or not g['iters']:
+            continue
+        owner = {s['var']: s['conn'] for s in g['segs']}
+        if a not in owner.values() or b not in owner.values():
+            continue
+        # the system the LAST solve of the region saw (gaps at the last positive separation tried)
+        cons = (g['iters'][-2].get('cons_after') if len(g['iters']) >= 2 else None) or g['cons']
+        vs = g['vars']
+        pinned = {i: v[1] for i, v in enumerate(vs) if v[0] != 0}
+        shared = [c for c in cons if c[3] and owner.get(c[0]) is not None and owner.get(c[1]) is not None
+                  and owner[c[0]] != owner[c[1]]]
+        if not shared:
+            continue
+        rest = [c for c in cons if c not in shared]
+        if not _feasible(len(vs), cons, pinned) and _feasible(len(vs), rest, pinned):
+            return True
+    return False
+
+
+def _runs(route):
+    """maximal axis-parallel runs of a polyline: (vertical?, position, lo, hi)"""
+    out = []
+    for p, q in zip(route, route[1:]):
+        if p == q:
+            continue
+        if p[0] == q[0]:
+            out.append((True, p[0], min(p[1], q[1]), max(p[1], q[1])))
+        elif p[1] == q[1]:
+            out.append((False, p[1], min(p[0], q[0]), max(p[0], q[0])))
+    return out
+
+
+def overlap_created_across_dimensions(r, a, b, tol=1e-6):
+    """every collinear overlap of the display routes of a and b is NEW: on that line the raw routes of a and b shared no
+    stretch of positive length (so no region of that dimension ever held the two segments together - checked too), one of
+    the two display segments is longer than the raw route's run on that line, i.e. it was lengthened by the shift of an
+    adjoining segment in the OTHER dimension (centring / nudging of the second pass), into the other connector's segment"""
+    da, db = _runs(r['routes'][a]['D']), _runs(r['routes'][b]['D'])
+    ra, rb = _runs(r['routes'][a]['O']), _runs(r['routes'][b]['O'])
+    found = False
+    for (v1, p1, l1, h1) in da:
+        for (v2, p2, l2, h2) in db:
+            if v1 == v2 and abs(p1 - p2) <= tol and min(h1, h2) - max(l1, l2) > tol:
+                found = True
+                lo, hi = max(l1, l2), min(h1, h2)
+                # raw coverage of the stretch [lo, hi] on that line by each connector
+                def covers(runs):
+                    return any(v == v1 and abs(p - p1) <= tol and min(h, hi) - max(l, lo) > tol for (v, p, l, h) in runs)
+                if covers(ra) and covers(rb):
+                    return False
+                dim = 0 if v1 else 1
+                for g in r['regions']:
+                    if g['dim'] == dim:
+                        cs = set(s['conn'] for s in g['segs'] if abs(s['pos'] - p1) <= tol)
+                        if a in cs and b in cs:
+                            return False
+    return found
